@@ -17,11 +17,11 @@ package pilosa
 
 import (
 	"context"
+	"encoding/json"
 	"fmt"
 	"sort"
 	"strings"
 	"sync"
-	"sync/atomic"
 	"testing"
 	"time"
 
@@ -75,7 +75,12 @@ func (n *c19Node) query(q string) ([]interface{}, error) {
 		}
 		n.parsed[q] = pq
 	}
-	resp, err := n.srv.executor.Execute(context.Background(), "i", pq, nil, nil)
+	// the executor rewrites call arguments in place (bool / key translation): run a copy
+	run := &pql.Query{Calls: make([]*pql.Call, len(pq.Calls))}
+	for i := range pq.Calls {
+		run.Calls[i] = pq.Calls[i].Clone()
+	}
+	resp, err := n.srv.executor.Execute(context.Background(), "i", run, nil, nil)
 	if err != nil {
 		return nil, err
 	}
@@ -459,6 +464,35 @@ func c19Relation(cs c19Case, left string) string {
 	return strings.Join(parts, ",")
 }
 
+// c19Rec is what a worker reports back for one executed history.
+type c19Rec struct {
+	I     int    `json:"i"`
+	L1    string `json:"l1,omitempty"`
+	L2    string `json:"l2,omitempty"`
+	Errs  string `json:"e,omitempty"`
+	Views string `json:"v"`
+	Ops   int    `json:"o"`
+	NC    bool   `json:"nc,omitempty"`
+}
+
+var (
+	c19NodeOnce sync.Once
+	c19TheNode  *c19Node // one node per process (workers are processes)
+)
+
+func c19GetNode() *c19Node {
+	c19NodeOnce.Do(func() { c19TheNode = c19NewNode() })
+	return c19TheNode
+}
+
+func c19RunGuarded(cs c19Case) c19Result {
+	var r c19Result
+	if p := vx.Guard(func() { r = c19GetNode().c19Run(cs) }); p != "" {
+		r.errs = p
+	}
+	return r
+}
+
 func TestVerif_C19(t *testing.T) {
 	c := vx.NewCheck("C19", "model_checking",
 		"every history Set(target,t∈T); Set(sibling,s∈S); Clear(target); observe; Set; Clear; observe with T,S subsets of a 16-point timestamp grid (|T|<=kT, |S|<=kS, timestamps merged when the quantum maps them to the same views), for all 10 quanta x 2 grids x noStandardView, on a real time field through the real executor; a history is not extended beyond a failing sub-history; distinct = distinct canonical pre-clear (view -> holds target/sibling) states")
@@ -485,26 +519,9 @@ func TestVerif_C19(t *testing.T) {
 	c.Bound("grids", c19Grids)
 	c.Bound("quanta", c19Quanta)
 
-	// one node per worker goroutine
-	var nodesMu sync.Mutex
-	var nodes []*c19Node
-	pool := sync.Pool{New: func() interface{} {
-		n := c19NewNode()
-		nodesMu.Lock()
-		nodes = append(nodes, n)
-		nodesMu.Unlock()
-		return n
-	}}
-	defer func() {
-		for _, n := range nodes {
-			n.close()
-		}
-	}()
-
 	var transitions, minimalFails, pruned int64
 	var flaky []string
 	states := map[string]struct{}{}
-	var statesMu sync.Mutex
 
 	type cfg struct {
 		grid  int
@@ -521,13 +538,36 @@ func TestVerif_C19(t *testing.T) {
 		}
 	}
 	type key struct{ t, s uint32 }
-	type outcome struct {
-		bad bool // failed, or has a failing sub-history (not executed)
-	}
-	for _, cf := range cfgs {
-		if c.Expired() {
-			break
+	parent := !vx.IsChild()
+
+	// worker body: execute history i of the list passed as input.
+	var decodedFor *byte
+	var decoded []c19Case
+	body := func(in []byte, i int, emit func([]byte)) {
+		if len(in) == 0 {
+			return
 		}
+		if decodedFor != &in[0] {
+			decoded = nil
+			if err := json.Unmarshal(in, &decoded); err != nil {
+				panic(err)
+			}
+			decodedFor = &in[0]
+		}
+		cs := decoded[i]
+		r := c19RunGuarded(cs)
+		c.AddEval(1)
+		st := cs.Quantum + fmt.Sprint(cs.NoStd) + r.views
+		c.Distinct(st)
+		c.Outcome(fmt.Sprintf("%s|%v|%s|%s|%s", cs.Quantum, cs.NoStd, c19Levels(r.left1), c19Levels(r.left2), c19ErrClass(r.errs)))
+		if i%499 == 0 {
+			c.Sample(cs.String())
+		}
+		b, _ := json.Marshal(c19Rec{I: i, L1: r.left1, L2: r.left2, Errs: r.errs, Views: st, Ops: r.ops, NC: r.nothingCleared})
+		emit(b)
+	}
+
+	for _, cf := range cfgs {
 		// representatives of timestamps with distinct view tuples under this quantum
 		var pts []int
 		seen := map[string]bool{}
@@ -543,123 +583,106 @@ func TestVerif_C19(t *testing.T) {
 		if len(cf.q) == 1 && ks > 1 {
 			ks = 1
 		}
-		Ts := c19Subsets(len(pts), 1, kTof(cf.grid))
-		Ss := c19Subsets(len(pts), 0, ks)
 		bySize := map[int][]c19Case{}
-		maxSize := 0
-		for _, T := range Ts {
-			for _, S := range Ss {
-				cs := c19Case{Grid: cf.grid, Quantum: cf.q, NoStd: cf.nostd}
-				for _, i := range T {
-					cs.T = append(cs.T, pts[i])
-				}
-				for _, i := range S {
-					cs.S = append(cs.S, pts[i])
-				}
-				sz := len(T) + len(S)
-				if sz > maxTotalOf(cf.grid) {
-					continue
-				}
-				bySize[sz] = append(bySize[sz], cs)
-				if sz > maxSize {
-					maxSize = sz
+		if parent {
+			for _, T := range c19Subsets(len(pts), 1, kTof(cf.grid)) {
+				for _, S := range c19Subsets(len(pts), 0, ks) {
+					cs := c19Case{Grid: cf.grid, Quantum: cf.q, NoStd: cf.nostd}
+					for _, i := range T {
+						cs.T = append(cs.T, pts[i])
+					}
+					for _, i := range S {
+						cs.S = append(cs.S, pts[i])
+					}
+					bySize[len(T)+len(S)] = append(bySize[len(T)+len(S)], cs)
 				}
 			}
 		}
-		done := map[key]outcome{}
-		for sz := 1; sz <= maxSize && !c.Expired(); sz++ {
+		done := map[key]bool{} // true = failed, or has a failing sub-history (not executed)
+		// the number of layers is fixed per configuration (independent of results)
+		for sz := 1; sz <= maxTotalOf(cf.grid); sz++ {
+			label := c.NextRunLabel()
+			if parent && c.Expired() {
+				continue
+			}
 			var run []c19Case
 			for _, cs := range bySize[sz] {
 				tm, sm := c19Mask(cs.T), c19Mask(cs.S)
 				bad := false
 				if len(cs.T) > 1 {
 					for _, i := range cs.T {
-						bad = bad || done[key{tm &^ (1 << uint(i)), sm}].bad
+						bad = bad || done[key{tm &^ (1 << uint(i)), sm}]
 					}
 				}
 				for _, i := range cs.S {
-					bad = bad || done[key{tm, sm &^ (1 << uint(i))}].bad
+					bad = bad || done[key{tm, sm &^ (1 << uint(i))}]
 				}
 				if bad {
-					done[key{tm, sm}] = outcome{bad: true}
+					done[key{tm, sm}] = true
 					pruned++
 					continue
 				}
 				run = append(run, cs)
 			}
-			res := make([]c19Result, len(run))
-			ran := make([]bool, len(run))
-			vx.ParallelFor(len(run), func(i int) {
-				if c.Expired() {
-					return
-				}
-				n := pool.Get().(*c19Node)
-				cs := run[i]
-				var r c19Result
-				if p := vx.Guard(func() { r = n.c19Run(cs) }); p != "" {
-					r.errs = p
-				}
-				pool.Put(n)
-				res[i], ran[i] = r, true
-				c.AddEval(1)
-				atomic.AddInt64(&transitions, int64(r.ops))
-				st := cf.q + fmt.Sprint(cf.nostd) + r.views
-				statesMu.Lock()
-				states[st] = struct{}{}
-				statesMu.Unlock()
-				c.Distinct(st)
-				c.Outcome(fmt.Sprintf("%s|%v|%s|%s|%s", cf.q, cf.nostd, c19Levels(r.left1), c19Levels(r.left2), c19ErrClass(r.errs)))
-				if i%499 == 0 {
-					c.Sample(cs.String())
+			if parent && len(run) == 0 {
+				continue
+			}
+			input, _ := json.Marshal(run)
+			recs := make([]*c19Rec, len(run))
+			c.ProcFor(label, len(run), input, body, func(b []byte) {
+				var r c19Rec
+				if json.Unmarshal(b, &r) == nil && r.I < len(recs) {
+					recs[r.I] = &r
 				}
 			})
+			if !parent {
+				continue
+			}
 			// classification (sequential, deterministic order). Every failing history here is minimal:
 			// all its sub-histories (one timestamp fewer) were executed and passed.
 			for i, cs := range run {
-				if !ran[i] {
+				r := recs[i]
+				k := key{c19Mask(cs.T), c19Mask(cs.S)}
+				if r == nil { // not executed (deadline)
+					done[k] = true
 					continue
 				}
-				r := res[i]
-				if r.left1 == "" && r.left2 == "" && r.errs == "" {
-					done[key{c19Mask(cs.T), c19Mask(cs.S)}] = outcome{}
+				transitions += int64(r.Ops)
+				states[r.Views] = struct{}{}
+				if r.L1 == "" && r.L2 == "" && r.Errs == "" {
 					continue
 				}
-				done[key{c19Mask(cs.T), c19Mask(cs.S)}] = outcome{bad: true}
+				done[k] = true
 				// believe a failure only if it reproduces identically 3 more times
-				n := pool.Get().(*c19Node)
 				same := 0
-				for k := 0; k < 3; k++ {
-					var r2 c19Result
-					if p := vx.Guard(func() { r2 = n.c19Run(cs) }); p != "" {
-						r2.errs = p
-					}
-					if r2.left1 == r.left1 && r2.left2 == r.left2 && r2.errs == r.errs {
+				for j := 0; j < 3; j++ {
+					r2 := c19RunGuarded(cs)
+					if r2.left1 == r.L1 && r2.left2 == r.L2 && r2.errs == r.Errs {
 						same++
 					}
 				}
-				pool.Put(n)
 				if same != 3 {
 					flaky = append(flaky, fmt.Sprintf("%s reproduced %d/3", cs.String(), same))
 					continue
 				}
 				minimalFails++
-				var k, got string
+				var fk, got string
 				switch {
-				case r.errs != "":
-					k = fmt.Sprintf("error quantum=%s noStandardView=%v: %s", cs.Quantum, cs.NoStd, c19ErrClass(r.errs))
-					got = r.errs
-				case r.left1 != "" && r.nothingCleared && len(cs.T) == 1 && len(cs.S) == 0:
+				case r.Errs != "":
+					fk = fmt.Sprintf("error quantum=%s noStandardView=%v: %s", cs.Quantum, cs.NoStd, c19ErrClass(r.Errs))
+					got = r.Errs
+				case r.L1 != "" && r.NC && len(cs.T) == 1 && len(cs.S) == 0:
 					// the simplest possible history already fails and Clear removed nothing at all
-					k = fmt.Sprintf("clear-is-a-noop noStandardView=%v", cs.NoStd)
-					got = "still returned by: " + r.left1
-				case r.left1 != "":
-					k = fmt.Sprintf("clear-leaves-bit quantum=%s noStandardView=%v targets=%d siblings=%d relation=%s left-in=%s", cs.Quantum, cs.NoStd, len(cs.T), len(cs.S), c19Relation(cs, r.left1), c19Levels(r.left1))
-					got = "still returned by: " + r.left1
+					fk = fmt.Sprintf("clear-is-a-noop noStandardView=%v", cs.NoStd)
+					got = "still returned by: " + r.L1
+				case r.L1 != "":
+					fk = fmt.Sprintf("clear-leaves-bit quantum=%s noStandardView=%v targets=%d siblings=%d relation=%s left-in=%s", cs.Quantum, cs.NoStd, len(cs.T), len(cs.S), c19Relation(cs, r.L1), c19Levels(r.L1))
+					got = "still returned by: " + r.L1
 				default:
-					k = fmt.Sprintf("second-clear-leaves-bit quantum=%s noStandardView=%v targets=%d siblings=%d left-in=%s", cs.Quantum, cs.NoStd, len(cs.T), len(cs.S), c19Levels(r.left2))
-					got = "after Set;Clear again still returned by: " + r.left2
+					fk = fmt.Sprintf("second-clear-leaves-bit quantum=%s noStandardView=%v targets=%d siblings=%d left-in=%s", cs.Quantum, cs.NoStd, len(cs.T), len(cs.S), c19Levels(r.L2))
+					got = "after Set;Clear again still returned by: " + r.L2
 				}
-				c.Violate(k, cs.String(), got, "target column returned by no view and no range query")
+				c.Violate(fk, cs.String(), got, "target column returned by no view and no range query")
 			}
 		}
 	}
